@@ -104,6 +104,57 @@ func Run(c *common.Ctx) error {
 		cf.Add(h.CoqCase(), map[string]any{"kind": "history", "page_size": cfg.PageSize, "scripted": "rolled-back WAL transactions", "steps": h.Steps})
 		h.Close()
 	}
+	// fixed history at the largest page size (64 KiB: the database header stores it as 1, the log's header as 65536):
+	// transactions in the log, LiteFS's own checkpoint, a restart with the log still holding transactions
+	{
+		cfg := hist.Config{PageSize: 65536, AllowWAL: true}
+		h, err := hist.New(c, c.Rng.Fork(), cfg)
+		if err != nil {
+			if h != nil {
+				h.Close()
+			}
+			return fmt.Errorf("history setup: %w", err)
+		}
+		for _, st := range []hist.Step{
+			{Op: "rtx", Writes: map[uint32]uint64{1: 1, 2: 2, 3: 3}, NewSize: 3, ToWAL: true},
+			{Op: "wtx", Frames: [][2]uint64{{2, 12}, {4, 14}}, NewSize: 4},
+			{Op: "lfsckpt"},
+			{Op: "wtx", Frames: [][2]uint64{{3, 23}}, NewSize: 4},
+			{Op: "wtx", Frames: [][2]uint64{{1, 31}, {5, 35}}, NewSize: 5},
+			{Op: "reopen"},
+			{Op: "wtx", Frames: [][2]uint64{{2, 42}}, NewSize: 3},
+			{Op: "lfsckpt"},
+			{Op: "wtx", Frames: [][2]uint64{{3, 53}}, NewSize: 3},
+		} {
+			if ob := h.Exec(st); ob.Panic != "" || len(ob.Exits) > 0 {
+				break
+			}
+		}
+		h.CheckCrash(c, "C04")
+		h.CheckChecksum(c)
+		cf.Add(h.CoqCase(), map[string]any{"kind": "history", "page_size": cfg.PageSize, "scripted": "64 KiB pages in the log", "steps": h.Steps})
+		h.Close()
+	}
+	// fixed history: a database that grows across pages SQLite never writes, with restarts in between
+	for _, ps := range []int{512, 4096} {
+		cfg := hist.Config{PageSize: ps, AllowWAL: true}
+		h, err := hist.New(c, c.Rng.Fork(), cfg)
+		if err != nil {
+			if h != nil {
+				h.Close()
+			}
+			return fmt.Errorf("history setup: %w", err)
+		}
+		for _, st := range hist.UnwrittenGrowthSteps() {
+			if ob := h.Exec(st); ob.Panic != "" || len(ob.Exits) > 0 {
+				break
+			}
+		}
+		h.CheckCrash(c, "C04")
+		h.CheckChecksum(c)
+		cf.Add(h.CoqCase(), map[string]any{"kind": "history", "page_size": cfg.PageSize, "scripted": "growth across unwritten pages", "steps": h.Steps})
+		h.Close()
+	}
 	if err := importCases(c); err != nil {
 		return err
 	}
